@@ -125,25 +125,30 @@ example : provedA ⟨.struct (.cons 0 (.prim 2) true (.cons 1 (.utf8 false) true
   decide
 
 /-- **Projection skip accounting** (`RecordBatchDecoder::skip_field` vs `write_array_data`): for
-every type of the physical grammar (nested, dictionary, union dense/sparse, run-end …) and metadata
-version `v`, a column with the shape the writer emits under `v` (validity buffer iff
+every type of the physical grammar (nested, dictionary, union dense/sparse, run-end …) and every
+metadata version `v`, a column with the shape the writer emits under `v` (validity buffer iff
 `has_validity_bitmap(type, v)`, buffers per layout, children recursively) occupies exactly
 `skipCount t v` field nodes and buffers — so skipping an unprojected column leaves the reader
 positioned on the next column.  Uses the *regenerated* shapes of `has_validity_bitmap` and of the
 Union arm of `skip_field` (version split 5 in both): if either changes, this theorem no longer
-checks.  Run-end types below the split are excluded — there the writer emits a validity buffer the
-readers never consume (known finding `ree-v4`, witnessed below). -/
-theorem skip_field_accounting (v : Nat) (t : DType) (x : ArrayData) (h : shapeOk v t x = true)
-    (hr : v < SKIP_UNION_VALIDITY_BELOW → noRee t = true) :
+checks. -/
+theorem skip_field_accounting (v : Nat) (t : DType) (x : ArrayData) (h : shapeOk v t x = true) :
     (flatten x).1.length = (skipCount t v).1 ∧ (flatten x).2.length = (skipCount t v).2 :=
-  flatten_count SKIP_UNION_VALIDITY_BELOW v (by decide) t x h hr
+  flatten_count SKIP_UNION_VALIDITY_BELOW v (by decide) t x h
 
 /-- the same for a column that *is* read (`create_array`), hence projected and full reads
 consume the same positions -/
-theorem create_array_accounting (v : Nat) (t : DType) (x : ArrayData) (h : shapeOk v t x = true)
-    (hr : v < READ_UNION_VALIDITY_BELOW → noRee t = true) :
+theorem create_array_accounting (v : Nat) (t : DType) (x : ArrayData) (h : shapeOk v t x = true) :
     (flatten x).1.length = (readCount t v).1 ∧ (flatten x).2.length = (readCount t v).2 :=
-  flatten_count READ_UNION_VALIDITY_BELOW v (by decide) t x h hr
+  flatten_count READ_UNION_VALIDITY_BELOW v (by decide) t x h
+
+/-- non-vacuity: a run-end column written under V4 (no validity buffer of its own; run ends and
+values each with theirs) has the writer's shape, and is skipped as 3 nodes / 4 buffers -/
+example : shapeOk 4 (.ree 4 (.prim 4))
+    ⟨.ree 4 (.prim 4), 1, 0, none, [],
+      [⟨.prim 4, 1, 0, some ⟨[1], 0, 1, 0⟩, [[1, 0, 0, 0]], []⟩,
+       ⟨.prim 4, 1, 0, some ⟨[1], 0, 1, 0⟩, [[7, 0, 0, 0]], []⟩]⟩ = true ∧
+    skipCount (.ree 4 (.prim 4)) 4 = (3, 4) := by decide
 
 /-- non-vacuity: a sparse union column written under V4 (validity buffer + type ids, one Int32
 child) has the writer's shape, and is skipped as 2 nodes / 4 buffers -/
@@ -380,6 +385,11 @@ theorem shapes_tied :
       SHAPE_READ_BUFFER_lost ||
       SHAPE_UPDATE_DICT_lost ||
       SHAPE_UPDATE_DICT_CONCAT_lost ||
+      SHAPE_READ_META_PREFIX_lost ||
+      SHAPE_WRITE_UNION_lost ||
+      SHAPE_WRITE_UNION_DENSE_lost ||
+      SHAPE_WRITE_UNION_CHILDREN_lost ||
+      SHAPE_REE_EMPTY_lost ||
       SHAPE_READ_META_LEN_lost ||
       SHAPE_FILE_DICTS_FIRST_lost ||
       SHAPE_BIT_SLICE_ALIGNED_lost ||
